@@ -11,6 +11,8 @@ import NetaddrVerif.Gen.Trans
 import NetaddrVerif.Props.TieCidr
 import NetaddrVerif.Props.TieSpan
 import NetaddrVerif.Lemmas.C09L
+import NetaddrVerif.Lemmas.C05LSpan
+import NetaddrVerif.Props.C09
 namespace NV.Tie
 open NV NV.Trans
 
@@ -141,5 +143,48 @@ theorem iprange_to_cidrs_eq (ver : Nat) (s e : Pfx) (hs : s.plen ≤ width ver) 
 
 example : iprange_to_cidrs 4 0x0A000001 32 4 0x0A000006 32 =
     .ok [(0x0A000001, 32, 4), (0x0A000002, 31, 4), (0x0A000004, 31, 4), (0x0A000006, 32, 4)] := by decide
+
+/-! ### `pop()` never meets an empty list: the IndexError branch of `iprange_to_cidrs_eq` is dead -/
+
+open NV.C09L NV.C05L in
+theorem after_nonempty (w : Nat) (s e : Pfx) (hs : PWF w s) (he : PWF w e)
+    (h : (spanOf2 w s e).first w < s.first w) :
+    (cidrPartition w (spanOf2 w s e) ⟨s.first w - 1, w⟩).2.2 ≠ [] := by
+  have hslt := pfx_last_lt w s hs
+  have helt := pfx_last_lt w e he
+  have hsfl : s.first w ≤ s.last w := first_le_last w s.val s.plen
+  have hefl : e.first w ≤ e.last w := first_le_last w e.val e.plen
+  have hle : min (s.first w) (e.first w) ≤ max (s.last w) (e.last w) := by omega
+  have hhi : max (s.last w) (e.last w) < 2 ^ w := by omega
+  obtain ⟨h1, h2, h3, h4, h5, _, _⟩ := spanningOf_spec w _ _ hle hhi
+  have hdef : spanOf2 w s e = spanningOf w (min (s.first w) (e.first w)) (max (s.last w) (e.last w)) := rfl
+  rw [← hdef] at h1 h2 h3 h4 h5
+  generalize spanOf2 w s e = span at h h1 h2 h3 h4 h5 ⊢
+  have hpos : 0 < 2 ^ (w - span.plen) := Nat.pos_of_ne_zero (by simp)
+  have hspanWF : PWF w span := ⟨by omega, h1⟩
+  have hexWF : PWF w ⟨s.first w - 1, w⟩ := ⟨by simp only []; omega, Nat.le_refl w⟩
+  have hfirst : span.first w = span.val := by
+    rw [pfx_first_eq w span hspanWF]
+    exact Nat.div_mul_cancel (Nat.dvd_of_mod_eq_zero h2)
+  have hlast := pfx_last_first w span hspanWF
+  have hexlast : (⟨s.first w - 1, w⟩ : Pfx).last w = s.first w - 1 := by
+    simp [Pfx.last, netLast]
+  have spec := (NV.C09.partition_spec w span ⟨s.first w - 1, w⟩ hspanWF hexWF).2.1 (s.first w)
+  intro hnil
+  rw [hnil] at spec
+  have hmem : span.mem w (s.first w) ∧ (⟨s.first w - 1, w⟩ : Pfx).last w < s.first w := by
+    refine ⟨⟨by omega, by omega⟩, by omega⟩
+  have := spec.mpr hmem
+  simp [blks, den] at this
+
+/-- for well-formed networks `iprange_to_cidrs` never raises: the translated source text IS the model -/
+theorem iprange_to_cidrs_ok (ver : Nat) (s e : Pfx) (hs : NV.C09L.PWF (width ver) s) (he : NV.C09L.PWF (width ver) e) :
+    iprange_to_cidrs ver (s.val : Int) (s.plen : Int) ver (e.val : Int) (e.plen : Int) =
+      .ok (liftL ver (iprangeToCidrs (width ver) s e)) := by
+  rw [iprange_to_cidrs_eq ver s e hs.plen_le he.plen_le]
+  by_cases h : (spanOf2 (width ver) s e).first (width ver) < s.first (width ver)
+  · have := after_nonempty (width ver) s e hs he h
+    simp [h, this]
+  · simp [h]
 
 end NV.Tie
